@@ -388,3 +388,8 @@ Theorem model_is_code_date_sub_date : forall self other,
   bind (o_pdate_new (o_year self) (o_month self) (o_day self)) (fun s => glue_Interval_new_delta d s false)).
 Proof. exact glue_date_sub_date. Qed.
 Print Assumptions model_is_code_date_sub_date.
+
+Theorem model_is_code_naive_operand : forall o, wall_in_range (o_wall o) = true ->
+  glue_pendulum_naive_7 (o_year o) (o_month o) (o_day o) (o_hour o) (o_minute o) (o_second o) (o_microsecond o) = Ok (mkgobj 3 (o_wall o) 1 None).
+Proof. exact glue_naive_operand. Qed.
+Print Assumptions model_is_code_naive_operand.
